@@ -309,6 +309,8 @@ def main():
         nreg = 0
         for rf in sorted(glob.glob(os.path.join(VERIF, "replays", "regress", pid + "-*.json"))):
             rp = json.load(open(rf))
+            if rp.get("only_tier") and rp["only_tier"] != a.tier:
+                continue   # e.g. replays that allocate 2 GiB run in the thorough tier only
             exe = exes[rp.get("binary") or P["default_binary"]]
             rc, out = replay_case(exe, rp["case"], datadir, ctx.get("replay_args"))
             nreg += 1
